@@ -8,6 +8,7 @@ import (
 	"sort"
 	"strconv"
 	"sync"
+	"sync/atomic"
 	"time"
 
 	"github.com/AdguardTeam/golibs/logutil/slogutil"
@@ -272,8 +273,14 @@ func stress(args []string) error {
 			plans[g] = append(plans[g], planStep{derive: h})
 		}
 	}
+	// Live values (first attribute of every second batch / record): they read a
+	// cell that is 0 while the shared handlers are derived and 7 from then on
+	// (set once, before the goroutines start: nothing is written during the
+	// run, so the reads order nothing).
+	var liveCell atomic.Int64
+	lc := liveCtx{kind: 1 + round%2, get: liveCell.Load}
 	spec := func(st *planStep) recordSpec {
-		attrs, msg := enlarge(st.sz, st.rec, concretise(st.rec, salt, plainGens), st.msg)
+		attrs, msg := enlarge(st.sz, st.rec, concretiseL(st.rec, salt, plainGens, lc), st.msg)
 		if st.fault != faultNone {
 			// The marker the scripted writer looks for: in an attribute value
 			// (the message may be dropped by ReplaceAttr).
@@ -293,8 +300,9 @@ func stress(args []string) error {
 	shared := make([]slog.Handler, prebuilt+1)
 	shared[1] = root
 	for id := 2; id <= prebuilt; id++ {
-		shared[id] = shared[hp[id].parent].WithAttrs(concretise(hp[id].batch, salt, plainGens))
+		shared[id] = shared[hp[id].parent].WithAttrs(concretiseL(hp[id].batch, salt, plainGens, lc))
 	}
+	liveCell.Store(7)
 	type enabledRes struct {
 		h, lv int
 		res   bool
@@ -329,7 +337,7 @@ func stress(args []string) error {
 				st := &plans[g][i]
 				switch {
 				case st.derive != nil:
-					own[st.derive.id] = get(st.derive.parent).WithAttrs(concretise(st.derive.batch, salt, plainGens))
+					own[st.derive.id] = get(st.derive.parent).WithAttrs(concretiseL(st.derive.batch, salt, plainGens, lc))
 				case st.enabled:
 					enabled[g] = append(enabled[g], enabledRes{st.h, st.lv, get(st.h).Enabled(ctx, slog.Level(st.lv))})
 				default:
@@ -483,7 +491,7 @@ func stress(args []string) error {
 				if sharedWant[rid][h] <= 0 {
 					continue
 				}
-				want, rerr := ref.line(spec(&tmpl), concretise(hp[h].acc, salt, plainGens))
+				want, rerr := ref.line(spec(&tmpl), concretiseL(hp[h].acc, salt, plainGens, lc))
 				if rerr != nil {
 					return rerr
 				}
@@ -508,7 +516,7 @@ func stress(args []string) error {
 			continue
 		}
 		matched[rid]++
-		want, rerr := ref.line(spec(st), concretise(hp[st.h].acc, salt, plainGens))
+		want, rerr := ref.line(spec(st), concretiseL(hp[st.h].acc, salt, plainGens, lc))
 		if rerr != nil {
 			return rerr
 		}
